@@ -27,6 +27,59 @@ pub enum Scn {
     /// after the throttling delay - a timed wait - until shutdown begins);
     /// main shuts down and awaits.
     Respawn { n: usize },
+    /// A history of pool-level operations on one group (several pools, pools
+    /// shut down on their own, pools started after another one was shut
+    /// down), then the group is shut down: every pool still live must be
+    /// reached by it, and await_shutdown must return.
+    Pools { ops: Vec<PoolOp> },
+}
+
+#[derive(Clone, Debug, PartialEq)]
+pub enum PoolOp {
+    /// start a pool with this many permanent workers
+    Start(usize),
+    /// `ThreadPool::shut_down` of the k-th pool started
+    Shut(usize),
+    /// `submit_or_spawn` to the k-th pool started
+    Submit(usize),
+}
+
+/// Every history of at most `len` pool operations: at most three pools (0 or
+/// 1 permanent worker), each shut down at most once, submissions to any pool
+/// started so far (live or shut down).
+pub fn pool_histories(len: usize) -> Vec<Cfg> {
+    fn rec(seq: &mut Vec<PoolOp>, nstart: usize, shut: &mut Vec<bool>, len: usize, out: &mut Vec<Cfg>) {
+        if !seq.is_empty() {
+            out.push(Cfg { perm: 0, linger_ms: 0, scn: Scn::Pools { ops: seq.clone() } });
+        }
+        if seq.len() == len {
+            return;
+        }
+        if nstart < 3 {
+            for perm in [0usize, 1] {
+                seq.push(PoolOp::Start(perm));
+                shut.push(false);
+                rec(seq, nstart + 1, shut, len, out);
+                shut.pop();
+                seq.pop();
+            }
+        }
+        for j in 0..nstart {
+            if !shut[j] {
+                seq.push(PoolOp::Shut(j));
+                shut[j] = true;
+                rec(seq, nstart, shut, len, out);
+                shut[j] = false;
+                seq.pop();
+            }
+            seq.push(PoolOp::Submit(j));
+            rec(seq, nstart, shut, len, out);
+            seq.pop();
+        }
+    }
+    let mut out = Vec::new();
+    rec(&mut Vec::new(), 0, &mut Vec::new(), len, &mut out);
+    out
 }
 
 #[derive(Clone, Debug, PartialEq)]
@@ -39,6 +92,12 @@ pub struct Cfg {
 impl Cfg {
     pub fn to_json(&self) -> Value {
         json!({"permanent_workers": self.perm, "linger_ms": self.linger_ms, "scenario": format!("{:?}", self.scn)})
+    }
+    pub fn n_ops(&self) -> usize {
+        match &self.scn {
+            Scn::Pools { ops } => ops.len(),
+            _ => 0,
+        }
     }
     pub fn label(&self) -> String {
         format!("perm={} linger={}ms {:?}", self.perm, self.linger_ms, self.scn)
@@ -226,6 +285,63 @@ pub fn body(cfg: &Cfg) -> ExecReport {
             if group.start_respawnable(None, || ()).is_ok() {
                 viol("accepted-after-shutdown", "a respawnable thread was accepted after shut_down() returned".to_string());
             }
+            group.await_shutdown();
+        }
+        Scn::Pools { ops } => {
+            let n_submit = ops.iter().filter(|o| matches!(o, PoolOp::Submit(_))).count();
+            let n_pools = ops.iter().filter(|o| matches!(o, PoolOp::Start(_))).count();
+            n_tasks = n_submit + n_pools;
+            log = Log::new(n_tasks, cfg.label());
+            let mut pools = Vec::new();
+            let mut shut: Vec<bool> = Vec::new();
+            let mut next = 0usize;
+            for (step, op) in ops.iter().enumerate() {
+                match op {
+                    PoolOp::Start(perm) => match group.start_pool(None, *perm, linger) {
+                        Ok(p) => {
+                            pools.push(p);
+                            shut.push(false);
+                        }
+                        Err(e) => {
+                            viol("start_pool-failed-before-shutdown", format!("step {step}: start_pool failed: {e}"));
+                            break;
+                        }
+                    },
+                    PoolOp::Shut(j) => {
+                        pools[*j].shut_down();
+                        shut[*j] = true;
+                    }
+                    PoolOp::Submit(j) => {
+                        let r = pools[*j].submit_or_spawn(log.task(next));
+                        log.set(next, r.is_ok());
+                        if r.is_ok() && shut[*j] {
+                            viol("accepted-after-pool-shutdown", format!("step {step}: pool {j} accepted a task after its shut_down() returned"));
+                        }
+                        if r.is_err() && !shut[*j] {
+                            viol("submission-rejected-before-shutdown", format!("step {step}: pool {j} rejected a task although neither it nor the group was shut down"));
+                        }
+                        next += 1;
+                    }
+                }
+            }
+            for (j, p) in pools.iter().enumerate() {
+                if p.is_shutting_down() != shut[j] {
+                    viol("pool-shutdown-state-wrong", format!("before the group shutdown pool {j} reports is_shutting_down() = {} but shut_down() was{} called on it", p.is_shutting_down(), if shut[j] { "" } else { " not" }));
+                }
+            }
+            group.shut_down();
+            for (j, p) in pools.iter().enumerate() {
+                if !p.is_shutting_down() {
+                    viol("pool-not-reached-by-group-shutdown", format!("pool {j} is not shutting down after ThreadGroup::shut_down() returned"));
+                }
+                let r = p.submit_or_spawn(log.task(next));
+                log.set(next, r.is_ok());
+                if r.is_ok() {
+                    viol("accepted-after-shutdown", format!("pool {j} accepted a task after ThreadGroup::shut_down() returned"));
+                }
+                next += 1;
+            }
+            drop(pools);
             group.await_shutdown();
         }
         Scn::Oneshots { n } => {
